@@ -120,9 +120,31 @@ def encode(tree):
     return toks
 
 
+def link_candidates(roots):
+    """module files (not the package markers) and sub-directories that lie inside a directory of a root"""
+    out = []
+
+    def walk(d, pre, ri):
+        for n, sub in d.items():
+            if pre and (sub is not None or (n.endswith('.py') and n not in ('__init__.py', '__main__.py'))):
+                out.append([ri, '/'.join(pre + [n])])
+            if sub is not None:
+                walk(sub, pre + [n], ri)
+    for i, r in enumerate(roots):
+        walk(r, [], i)
+    return out
+
+
 def make_case(rng):
     roots = [rand_root(rng.fork('r%d' % i)) for i in range(rng.below(3) + 1)]
-    return {'roots': roots, 'names': names_of(roots, rng), 'walks': pkg_dirs(roots)}
+    case = {'roots': roots, 'names': names_of(roots, rng), 'walks': pkg_dirs(roots)}
+    r2 = rng.fork('links')
+    cands = link_candidates(roots)
+    if cands and r2.chance(1, 3):
+        picked = r2.sample(cands, min(len(cands), r2.below(2) + 1))
+        # no link below another link
+        case['links'] = [p for p in picked if not any(q is not p and q[0] == p[0] and p[1].startswith(q[1] + '/') for q in picked)]
+    return case
 
 
 def model_lines(c):
@@ -239,7 +261,7 @@ def run(ctx):
                 'walked as a package; non-trivial = more than one search root',
         'traces_validated_against_impl': stats['queries'] * 2 + stats['walks'] - kdiff, 'correspondence_disagreements': kdiff, 'statistics': stats})
     ctx.coverage['samples'].append({'roots': cases[-1]['roots'], 'lookup': res[-1].get('lookup'), 'pathfinder': res[-1].get('pathfinder')})
-    ctx.assumptions += ['os.path / os.walk are modelled by tree operations; symlinks, egg-links, editable installs and extension modules are not generated',
+    ctx.assumptions += ['os.path / os.walk are modelled by tree operations (a symbolic link inside a package is the thing it points to, under the link\'s name); egg-links, editable installs and extension modules are not generated',
                         'names resolved through PEP 420 namespace packages are outside the property (regular packages and modules): skipped by the oracle, still compared with the model',
                         'a search root that contains __init__.py is the excluded point of the round trip (path -> name cannot know the search path): counted in the evidence']
     return ctx.finish('Lean: lookup = import walk per root, first root wins, = PathFinder under NoPartialShadow (witness F-C18a), round trip, package walk; '
